@@ -8,7 +8,7 @@ import (
 	"go/token"
 	"go/types"
 	"os"
-	"path"
+	gopath "path"
 	"path/filepath"
 	"regexp"
 	"sort"
@@ -135,9 +135,9 @@ func (ld *loader) Import(ipath string) (*types.Package, error) {
 	if p, ok := ld.fakes[ipath]; ok {
 		return p, nil
 	}
-	name := path.Base(ipath)
+	name := gopath.Base(ipath)
 	if versionElem.MatchString(name) {
-		name = path.Base(path.Dir(ipath))
+		name = gopath.Base(gopath.Dir(ipath))
 	}
 	name = strings.TrimPrefix(name, "go-")
 	p := types.NewPackage(ipath, name)
